@@ -155,6 +155,7 @@ def _run(ctx):
     B.make_gap_weather(ex)
     B.make_fraction_inputs(ex)
     B.make_sweep_inputs(ex)
+    B.make_autosow_inputs(ex)
     B.make_long_irrigation(ex)
     # lines sharing input files and ids, differing in one interpretation key ("same results alone or together")
     _cache["ik"] = B.run_interp_groups(binary, ex, rng, concs=(1, 2, 8) if ctx.thorough else (1, 2), timeout=TIMEOUT)
@@ -180,12 +181,14 @@ def _run(ctx):
     valid = vkeys[:(8 if ctx.thorough else 4)]
     if "pred" not in valid:
         valid[-1] = "pred"
-    pool.update(B.VARIANTS_VALID)
-    valid += list(B.TEXTURE_VALID) + list(B.FRACTIONS_VALID) + list(B.VARIANTS_VALID)
+    pool.update(B.VARIANTS_VALID); pool.update(B.AUTOSOW); pool.update(B.OVR_IGNORED); pool.update(B.OVR_ACCEPTED); pool.update(B.OVR_PARSE_ERRORS)
+    valid += list(B.TEXTURE_VALID) + list(B.FRACTIONS_VALID) + list(B.VARIANTS_VALID) + list(B.AUTOSOW)
+    ovrk = list(B.OVR_IGNORED) + list(B.OVR_ACCEPTED)     # crop parameter overrides at / next to their bounds: valid lines
+    # (malformed override keys, B.OVR_PARSE_ERRORS, are rejected before the result folder is made: not part of the run set)
     classes = list(B.FAILING) + list(B.TEXTURE_FAILING)
     solo = {}
     jobs = [lambda k=k: (k, B.run_batch(binary, ex, "solo_" + re.sub(r"\W", "_", k), [k], pool, 1, 4, timeout=TIMEOUT))
-            for k in valid + classes + variants + longk + sweepk + routedk]
+            for k in valid + classes + variants + longk + sweepk + routedk + ovrk]
     for k, e in B.parallel(jobs, 6):
         solo[k] = e
     mixed, jobs = [], []
@@ -212,6 +215,16 @@ def _run(ctx):
             c = rng.choice(concs)
             jobs.append(lambda v=v, c=c, batch=batch, tagp=tagp: B.run_batch(
                 binary, ex, "r_%s_%s_c%d" % (re.sub(r"\W", "_", v), tagp, c), batch, pool, c, rng.choice((1, 4, 16)), timeout=TIMEOUT))
+    atb = [k for k in B.OVR_IGNORED if k.endswith("=0") and ("TSUM" in k or "KC" in k)]
+    for v in atb + rng.sample([k for k in B.OVR_IGNORED if k not in atb], 3 if not ctx.thorough else 15):   # override at its bound FIRST and LAST
+        vs = rng.sample(valid, 2)
+        for tagp, batch in (("first", [v] + vs), ("last", vs + [v])):
+            c = rng.choice(concs)
+            jobs.append(lambda v=v, c=c, batch=batch, tagp=tagp: B.run_batch(
+                binary, ex, "o_%s_%s_c%d" % (re.sub(r"\W", "_", v), tagp, c), batch, pool, c, 4, timeout=TIMEOUT))
+    batch = list(ovrk) + [rng.choice(classes)]
+    rng.shuffle(batch)
+    jobs.append(lambda batch=batch: B.run_batch(binary, ex, "ovr_all_c8", batch, pool, 8, 4, timeout=4 * TIMEOUT))
     for c in (2, 8):
         batch = list(sweepk) + [rng.choice(classes)]
         rng.shuffle(batch)
@@ -433,6 +446,12 @@ def oracle(ctx, search):
                 fails.append(Fail(key="valid-line-failed:%s" % k, what="a valid shipped line does not run alone", rc=e.rc,
                                   stdout=e.stdout[-400:], stderr=e.stderr[-400:], replay=_replay(e, pool)))
     solodig = {k: B.folder_digest(os.path.join(e.root, "l0")) for k, e in solo.items()}
+    # an override outside its range is ignored: the bytes of the line without the c_ keys
+    for k in B.OVR_IGNORED:
+        if k in solodig and failed.get(k) is False and solodig[k] != solodig.get("ovb:none"):
+            fails.append(Fail(key="crop-override-at-bound:%s:applied" % k.split(":", 1)[1],
+                              what="a crop parameter override on / outside the bound of its range is applied instead of being ignored",
+                              line=pool[k], reference_line=pool["ovb:none"], replay=_replay(solo[k], pool)))
     compared = 0
     for e in r["mixed"]:
         if e.race_reports:
